@@ -106,8 +106,8 @@ Section Sim.
 
   Definition sim_expr (e : expr) : Prop :=
     forall selfv r s v s', ref_eval fenv now selfv r e s = Some (v, s') ->
-    exists n0, forall n, n0 <= n -> forall rho w, fun_ok rho -> env_ok r rho w ->
-      exists w', xeval n ft now selfv rho (embed e) s w = Ok (VNum v, s', w') /\ ext w w'.
+    exists n0, forall n, n0 <= n -> forall ss, self_of ss = selfv -> forall rho w, fun_ok rho -> env_ok r rho w ->
+      exists w', xeval n ft now ss rho (embed e) s w = Ok (VNum v, s', w') /\ ext w w'.
 
   (* the argument loop of ECall against eval_list *)
   Definition ref_args (selfv : Z) (r : env) (s : stree) :=
@@ -137,20 +137,20 @@ Section Sim.
 
   Lemma args_sim : forall args, Forall sim_expr args ->
     forall selfv r s i vs ks, ref_args selfv r s args i = Some (vs, ks) ->
-    exists n0, forall n, n0 <= n -> forall rho w, fun_ok rho -> env_ok r rho w ->
-      exists w', eval_list (xeval n ft now) selfv rho (map embed args) s i w = Ok (map VNum vs, ks, w') /\ ext w w'.
+    exists n0, forall n, n0 <= n -> forall ss, self_of ss = selfv -> forall rho w, fun_ok rho -> env_ok r rho w ->
+      exists w', eval_list (xeval n ft now) ss rho (map embed args) s i w = Ok (map VNum vs, ks, w') /\ ext w w'.
   Proof.
     induction 1 as [|a args Ha Hargs IH]; intros selfv r s i vs ks H.
-    - cbn in H. inversion H; subst. exists O. intros n _ rho w _ _. exists w. split; [reflexivity|apply ext_refl].
+    - cbn in H. inversion H; subst. exists O. intros n _ ss Hss rho w _ _. exists w. split; [reflexivity|apply ext_refl].
     - cbn in H.
       destruct (ref_eval fenv now selfv r a (kid s i)) as [[v k]|] eqn:Ea; [|discriminate].
       destruct (ref_args selfv r s args (S i)) as [[vs' ks']|] eqn:Er; [|discriminate].
       inversion H; subst; clear H.
       destruct (Ha _ _ _ _ _ Ea) as (n1 & H1).
       destruct (IH _ _ _ _ _ _ Er) as (n2 & H2).
-      exists (Nat.max n1 n2). intros n Hn rho w Hr Hw.
-      destruct (H1 n ltac:(lia) rho w Hr Hw) as (w1 & E1 & X1).
-      destruct (H2 n ltac:(lia) rho w1 Hr (env_ok_ext _ _ _ _ Hw X1)) as (w2 & E2 & X2).
+      exists (Nat.max n1 n2). intros n Hn ss Hss rho w Hr Hw.
+      destruct (H1 n ltac:(lia) ss Hss rho w Hr Hw) as (w1 & E1 & X1).
+      destruct (H2 n ltac:(lia) ss Hss rho w1 Hr (env_ok_ext _ _ _ _ Hw X1)) as (w2 & E2 & X2).
       exists w2. split; [|eapply ext_trans; eauto].
       cbn [map eval_list]. rewrite E1. cbn [rbind]. rewrite E2. reflexivity.
   Qed.
@@ -161,31 +161,31 @@ Section Sim.
   Proof.
     induction e as [z|x| | | |op e1 e2 IHe1 IHe2|e IHe|x e1 e2 IHe1 IHe2|e1 e2 e3 IHe1 IHe2 IHe3|f args Hargs|e IHe|n e1 e2 IHe1 IHe2]
       using expr_ind'; intros selfv r s v s' H; cbn [ref_eval] in H.
-    - (* ELit *) inversion H; subst. exists 1%nat. intros n Hn rho w _ _. fuel n. exists w. split; [reflexivity|apply ext_refl].
+    - (* ELit *) inversion H; subst. exists 1%nat. intros n Hn ss Hss rho w _ _. fuel n. exists w. split; [reflexivity|apply ext_refl].
     - (* EVar *)
       destruct (lookup x r) as [z|] eqn:Ex; [|discriminate]. inversion H; subst.
-      exists 1%nat. intros n Hn rho w _ Hw. fuel n. destruct (Hw _ _ Ex) as (l & Hl & Hnth).
+      exists 1%nat. intros n Hn ss Hss rho w _ Hw. fuel n. destruct (Hw _ _ Ex) as (l & Hl & Hnth).
       rewrite Hl, Hnth. exists w. split; [reflexivity|apply ext_refl].
-    - (* ENow *) inversion H; subst. exists 1%nat. intros n Hn rho w _ _. fuel n. exists w. split; [reflexivity|apply ext_refl].
-    - (* ESr *) inversion H; subst. exists 1%nat. intros n Hn rho w _ _. fuel n. exists w. split; [reflexivity|apply ext_refl].
-    - (* ESelf *) inversion H; subst. exists 1%nat. intros n Hn rho w _ _. fuel n. exists w. split; [reflexivity|apply ext_refl].
+    - (* ENow *) inversion H; subst. exists 1%nat. intros n Hn ss Hss rho w _ _. fuel n. exists w. split; [reflexivity|apply ext_refl].
+    - (* ESr *) inversion H; subst. exists 1%nat. intros n Hn ss Hss rho w _ _. fuel n. exists w. split; [reflexivity|apply ext_refl].
+    - (* ESelf *) inversion H; subst. exists 1%nat. intros n Hn ss Hss rho w _ _. fuel n. rewrite Hss. exists w. split; [reflexivity|apply ext_refl].
     - (* EBin *)
       destruct (ref_eval fenv now selfv r e1 (kid s 0)) as [[va ka]|] eqn:Ea; [|discriminate].
       destruct (ref_eval fenv now selfv r e2 (kid s 1)) as [[vb kb]|] eqn:Eb; [|discriminate].
       inversion H; subst; clear H.
       destruct (IHe1 _ _ _ _ _ Ea) as (n1 & H1).
       destruct (IHe2 _ _ _ _ _ Eb) as (n2 & H2).
-      exists (S (Nat.max n1 n2)). intros n Hn rho w Hr Hw. fuel n.
-      destruct (H1 n ltac:(lia) rho w Hr Hw) as (w1 & E1 & X1).
-      destruct (H2 n ltac:(lia) rho w1 Hr (env_ok_ext _ _ _ _ Hw X1)) as (w2 & E2 & X2).
+      exists (S (Nat.max n1 n2)). intros n Hn ss Hss rho w Hr Hw. fuel n.
+      destruct (H1 n ltac:(lia) ss Hss rho w Hr Hw) as (w1 & E1 & X1).
+      destruct (H2 n ltac:(lia) ss Hss rho w1 Hr (env_ok_ext _ _ _ _ Hw X1)) as (w2 & E2 & X2).
       rewrite E1. cbn [rbind]. rewrite E2. cbn [rbind as_num].
       exists w2. split; [reflexivity|eapply ext_trans; eauto].
     - (* ENeg *)
       destruct (ref_eval fenv now selfv r e (kid s 0)) as [[va ka]|] eqn:Ea; [|discriminate].
       inversion H; subst; clear H.
       destruct (IHe _ _ _ _ _ Ea) as (n1 & H1).
-      exists (S n1). intros n Hn rho w Hr Hw. fuel n.
-      destruct (H1 n ltac:(lia) rho w Hr Hw) as (w1 & E1 & X1).
+      exists (S n1). intros n Hn ss Hss rho w Hr Hw. fuel n.
+      destruct (H1 n ltac:(lia) ss Hss rho w Hr Hw) as (w1 & E1 & X1).
       rewrite E1. cbn [rbind as_num]. exists w1. split; [reflexivity|exact X1].
     - (* ELet *)
       destruct (ref_eval fenv now selfv r e1 (kid s 0)) as [[va ka]|] eqn:Ea; [|discriminate].
@@ -193,11 +193,11 @@ Section Sim.
       inversion H; subst; clear H.
       destruct (IHe1 _ _ _ _ _ Ea) as (n1 & H1).
       destruct (IHe2 _ _ _ _ _ Eb) as (n2 & H2).
-      exists (S (Nat.max n1 n2)). intros n Hn rho w Hr Hw. fuel n.
-      destruct (H1 n ltac:(lia) rho w Hr Hw) as (w1 & E1 & X1).
+      exists (S (Nat.max n1 n2)). intros n Hn ss Hss rho w Hr Hw. fuel n.
+      destruct (H1 n ltac:(lia) ss Hss rho w Hr Hw) as (w1 & E1 & X1).
       rewrite E1. cbn [rbind bind_pat]. unfold alloc at 1. cbn [rbind].
       pose proof (env_ok_bind r rho w1 x va (env_ok_ext _ _ _ _ Hw X1)) as Hw2.
-      destruct (H2 n ltac:(lia) _ _ (fun_ok_bind rho x (BLoc (length (w_vars w1))) Hr) Hw2) as (w3 & E3 & X3).
+      destruct (H2 n ltac:(lia) ss Hss _ _ (fun_ok_bind rho x (BLoc (length (w_vars w1))) Hr) Hw2) as (w3 & E3 & X3).
       unfold alloc in E3, X3. cbn [snd] in E3, X3. rewrite E3. cbn [rbind].
       exists w3. split; [reflexivity|].
       eapply ext_trans; [exact X1|]. eapply ext_trans; [|exact X3].
@@ -209,17 +209,17 @@ Section Sim.
       + destruct (ref_eval fenv now selfv r e2 (kid s 1)) as [[vt kt]|] eqn:Et; [|discriminate].
         inversion H; subst; clear H.
         destruct (IHe2 _ _ _ _ _ Et) as (n2 & H2).
-        exists (S (Nat.max n1 n2)). intros n Hn rho w Hr Hw. fuel n.
-        destruct (H1 n ltac:(lia) rho w Hr Hw) as (w1 & E1 & X1).
-        destruct (H2 n ltac:(lia) rho w1 Hr (env_ok_ext _ _ _ _ Hw X1)) as (w2 & E2 & X2).
+        exists (S (Nat.max n1 n2)). intros n Hn ss Hss rho w Hr Hw. fuel n.
+        destruct (H1 n ltac:(lia) ss Hss rho w Hr Hw) as (w1 & E1 & X1).
+        destruct (H2 n ltac:(lia) ss Hss rho w1 Hr (env_ok_ext _ _ _ _ Hw X1)) as (w2 & E2 & X2).
         rewrite E1. cbn [rbind as_num]. rewrite Ecmp. rewrite E2. cbn [rbind].
         exists w2. split; [reflexivity|eapply ext_trans; eauto].
       + destruct (ref_eval fenv now selfv r e3 (kid s 2)) as [[ve ke]|] eqn:Ee; [|discriminate].
         inversion H; subst; clear H.
         destruct (IHe3 _ _ _ _ _ Ee) as (n2 & H2).
-        exists (S (Nat.max n1 n2)). intros n Hn rho w Hr Hw. fuel n.
-        destruct (H1 n ltac:(lia) rho w Hr Hw) as (w1 & E1 & X1).
-        destruct (H2 n ltac:(lia) rho w1 Hr (env_ok_ext _ _ _ _ Hw X1)) as (w2 & E2 & X2).
+        exists (S (Nat.max n1 n2)). intros n Hn ss Hss rho w Hr Hw. fuel n.
+        destruct (H1 n ltac:(lia) ss Hss rho w Hr Hw) as (w1 & E1 & X1).
+        destruct (H2 n ltac:(lia) ss Hss rho w1 Hr (env_ok_ext _ _ _ _ Hw X1)) as (w2 & E2 & X2).
         rewrite E1. cbn [rbind as_num]. rewrite Ecmp. rewrite E2. cbn [rbind].
         exists w2. split; [reflexivity|eapply ext_trans; eauto].
     - (* ECall *)
@@ -242,9 +242,9 @@ Section Sim.
       destruct (args_sim args Hargs _ _ _ _ _ _ Ea) as (n1 & H1).
       destruct (Hfenv f fn Ef) as (k & Hk & Hsim).
       destruct (Hsim _ _ _ _ Ec) as (n2 & H2).
-      exists (S (Nat.max n1 n2)). intros n Hn rho w Hr Hw. fuel n.
+      exists (S (Nat.max n1 n2)). intros n Hn ss Hss rho w Hr Hw. fuel n.
       unfold apply_x, direct_target. rewrite (Hr f k Hk). rewrite map_length.
-      destruct (H1 n ltac:(lia) rho w Hr Hw) as (w1 & E1 & X1).
+      destruct (H1 n ltac:(lia) ss Hss rho w Hr Hw) as (w1 & E1 & X1).
       rewrite E1. cbn [rbind].
       destruct (H2 n ltac:(lia) w1) as (w2 & E2 & X2).
       rewrite E2. cbn [rbind].
@@ -253,8 +253,8 @@ Section Sim.
       destruct (ref_eval fenv now selfv r e (kid s 0)) as [[va ka]|] eqn:Ea; [|discriminate].
       inversion H; subst; clear H.
       destruct (IHe _ _ _ _ _ Ea) as (n1 & H1).
-      exists (S n1). intros n Hn rho w Hr Hw. fuel n.
-      destruct (H1 n ltac:(lia) rho w Hr Hw) as (w1 & E1 & X1).
+      exists (S n1). intros n Hn ss Hss rho w Hr Hw. fuel n.
+      destruct (H1 n ltac:(lia) ss Hss rho w Hr Hw) as (w1 & E1 & X1).
       rewrite E1. cbn [rbind as_num]. exists w1. split; [reflexivity|exact X1].
     - (* EDelay *)
       destruct (ref_eval fenv now selfv r e1 (kid s 0)) as [[va ka]|] eqn:Ea; [|discriminate].
@@ -262,9 +262,9 @@ Section Sim.
       inversion H; subst; clear H.
       destruct (IHe1 _ _ _ _ _ Ea) as (n1 & H1).
       destruct (IHe2 _ _ _ _ _ Et) as (n2 & H2).
-      exists (S (Nat.max n1 n2)). intros n0 Hn rho w Hr Hw. fuel n0.
-      destruct (H1 n0 ltac:(lia) rho w Hr Hw) as (w1 & E1 & X1).
-      destruct (H2 n0 ltac:(lia) rho w1 Hr (env_ok_ext _ _ _ _ Hw X1)) as (w2 & E2 & X2).
+      exists (S (Nat.max n1 n2)). intros n0 Hn ss Hss rho w Hr Hw. fuel n0.
+      destruct (H1 n0 ltac:(lia) ss Hss rho w Hr Hw) as (w1 & E1 & X1).
+      destruct (H2 n0 ltac:(lia) ss Hss rho w1 Hr (env_ok_ext _ _ _ _ Hw X1)) as (w2 & E2 & X2).
       rewrite E1. cbn [rbind]. rewrite E2. cbn [rbind as_num].
       exists w2. split; [reflexivity|eapply ext_trans; eauto].
   Qed.
